@@ -184,7 +184,7 @@ func NewSim(ch *Chooser, stepCtr *atomic.Int64) *Sim {
 		stepCtr:  stepCtr,
 		ctlGoid:  runtime.VerifGoid(),
 		KeepLog:  true,
-		MaxSteps: 400_000,
+		MaxSteps: 120_000,
 	}
 	verifhook.H = s
 
